@@ -344,7 +344,12 @@ func (i *Info) CanReadMessagesUsingIndex() bool {
 	// If there are chunk indexes, we can read messages using the index.
 	// if there are none, but the statistics indicate that there are messages, then we know
 	// that a read using the indexed message iterator will still yield the correct set of messages.
-	return len(i.ChunkIndexes) > 0 || (i.Statistics != nil && i.Statistics.MessageCount == 0)
+	// Chunk indexes alone are not enough: the indexed iterator learns channels only from the
+	// summary section, so without channel records there it would skip every message.
+	if len(i.ChunkIndexes) > 0 && len(i.Channels) > 0 {
+		return true
+	}
+	return i.Statistics != nil && i.Statistics.MessageCount == 0
 }
 
 type MessageIndexEntry struct {
